@@ -1055,17 +1055,17 @@ class BoundsStreamStream(Stream):
         out = []
         hit = lambda w: out.append({"what": w, "finding": None})
         for i, (snap, cp) in enumerate(zip(stream_snapshots(case), obs["checkpoints"])):
-            if not cp["requested"]:
-                continue
             where = f"after step {i} ({case['script'][i]})"
             _, sadv, senf = spec_bounds({"absent": [], "data": snap["data"]}, [{"bats": g[0], "invs": g[1]} for g in snap["groups"]])
+            if cp.get("enf") is not None and [fr(v) for v in cp["enf"]] != senf:
+                hit(f"spec: {where} the enforced bounds {[str(fr(v)) for v in cp['enf']]} differ from the documented aggregation "
+                    f"{None if senf is None else [str(v) for v in senf]} of the working sets {snap['groups']}")
+            if not cp["requested"]:
+                continue
             gadv = None if cp.get("adv") is None else [fr(v) for v in cp["adv"]]
             if gadv != sadv:
                 hit(f"spec: {where} the latest streamed bounds {None if gadv is None else [str(v) for v in gadv]} differ from the "
                     f"documented aggregation {None if sadv is None else [str(v) for v in sadv]} of the latest data of the working sets {snap['groups']}")
-            if cp.get("enf") is not None and [fr(v) for v in cp["enf"]] != senf:
-                hit(f"spec: {where} the enforced bounds {[str(fr(v)) for v in cp['enf']]} differ from the documented aggregation "
-                    f"{None if senf is None else [str(v) for v in senf]} of the working sets {snap['groups']}")
             if cp.get("enf") is None:
                 if cp.get("adv") is not None and not snap["groups"]:
                     hit(f"stream: {where} no battery works but the pool still streams bounds {[str(fr(v)) for v in cp['adv']]}")
